@@ -13,9 +13,22 @@ import (
 )
 
 var envT *testing.T
+var oneShotNow bool // the scenario being explored is a one-shot run
+var leakedBubbles int64
 
 // envRun executes one plan on a fresh rig in a fresh bubble; check evaluates the property.
 func envRun(conf rigConf, plan []vh.Deviation, setup func(r *rig), goal func(r *rig) bool, check func(r *rig) (viol, class, outcome string)) (res vh.EnvRun) {
+	defer func() {
+		// Goroutines that the code under test leaves blocked for good (e.g. Broker.Start's stop
+		// relay when nobody is left to take its message) cannot be ended from outside; the
+		// bubble then ends with this panic, after the run has been evaluated. Tolerated, counted.
+		if p := recover(); p != nil {
+			if !strings.Contains(fmt.Sprint(p), "blocked goroutines remain") {
+				panic(p)
+			}
+			leakedBubbles++
+		}
+	}()
 	synctest.Test(envT, func(t *testing.T) {
 		var p Plan
 		for _, d := range plan {
@@ -71,6 +84,17 @@ func confTwoThreads() rigConf {
 		ScanDelay: 30 * time.Second, PollDelay: 2 * time.Second, PollInterval: 5 * time.Second, PollAttempts: 3, PollMaxCount: 2,
 		Horizon: 6 * time.Hour,
 	}
+}
+
+// confManyFiles: more payloads than the pipeline's channels hold (1 thread: capacity 2 each).
+func confManyFiles() rigConf {
+	c := confTwoThreads()
+	c.Threads = 1
+	c.Files = nil
+	for i := 0; i < 8; i++ {
+		c.Files = append(c.Files, rigFile{Name: fmt.Sprintf("g/f%d", i), Data: strings.Repeat(string(rune('a'+i)), 30), Age: 300 - i})
+	}
+	return c
 }
 
 func confOneThread() rigConf {
@@ -146,6 +170,328 @@ func c08Class(r *rig) string {
 	for _, w := range r.wire {
 		if w.Kind == "data" && w.Err != "" && w.N > 0 {
 			return "count-of-206-ignored"
+		}
+	}
+	return ""
+}
+
+// ---------------------------------------------------------------- generic runner for rig properties
+
+type envScenario struct {
+	name  string
+	conf  rigConf
+	setup func(r *rig)
+}
+
+func runEnvProperty(t *testing.T, prop, part string, scs []envScenario, maxDev int, alts func(ev vh.EnvEvent, plan []vh.Deviation) []string,
+	check func(r *rig) (string, string, string), bound string) {
+	envT = t
+	rep := vh.NewReport(prop, part)
+	defer rep.Write()
+	for _, sc := range scs {
+		sc := sc
+		e := &vh.Env{Rep: rep, Scenario: sc.name, MaxDev: maxDev,
+			Run: func(plan []vh.Deviation) vh.EnvRun {
+				return envRun(sc.conf, plan, sc.setup, goalDelivered, check)
+			},
+			Alternatives: alts,
+		}
+		oneShotNow = sc.conf.OneShot
+		e.Explore()
+	}
+	rep.Count("bubbles that ended with goroutines left blocked by the code under test", leakedBubbles)
+	rep.Bound = bound
+}
+
+// faultAlts: the request-failure menu used by several properties.
+func faultAlts(ev vh.EnvEvent, restarts bool) []string {
+	var out []string
+	switch kindOf(ev.Key) {
+	case "data":
+		out = pick(ev.Menu, "refuse", "lost", "gkfail:", "cut:", "corrupt:")
+	case "recovery", "validate":
+		out = pick(ev.Menu, "refuse", "lost")
+	case "partials":
+		out = pick(ev.Menu, "refuse")
+	}
+	if restarts {
+		switch kindOf(ev.Key) {
+		case "data", "validate":
+			out = append(out, pick(ev.Menu, "recv-restart", "crash")...)
+		}
+	}
+	return out
+}
+
+// ---------------------------------------------------------------- C03: liveness after transient failures
+
+func c03Check(r *rig) (string, string, string) {
+	if v := r.c01Final(); v != "" {
+		return v + "\n" + r.traceString(), "", ""
+	}
+	if g := r.c03Goal(); g != "" {
+		return fmt.Sprintf("C03: %.0f s of failure-free virtual time after the last deviation the goal is not reached: %s\n%s", (r.now() - r.lastDev).Seconds(), g, r.traceString()), "", ""
+	}
+	if r.conf.OneShot && !r.finished {
+		return "C03/C16: everything is delivered, but the one-shot sender has not exited\n" + r.traceString(), "", ""
+	}
+	return "", "", fmt.Sprintf("goal reached at %.0fs", r.now().Seconds())
+}
+
+func TestC03Env(t *testing.T) {
+	d := 2
+	cron := confTwoThreads()
+	cron.Rerun = true // a one-shot sender that exits with a failed file left is invoked again
+	scs := []envScenario{{"3 files, 2 threads, one-shot invoked every minute", cron, nil}, {"2 files, 1 thread, daemon", asDaemon(confOneThread()), nil}}
+	if vh.Thorough() {
+		d = 3
+		scs = scs[1:]
+		scs = append(scs, envScenario{"3 files, 2 threads, one-shot invoked every minute", cron, nil})
+	}
+	runEnvProperty(t, "C03", "transient failures, then a failure-free period (E-ENV)", scs, d,
+		func(ev vh.EnvEvent, plan []vh.Deviation) []string {
+			if vh.Thorough() && len(plan) >= 2 && strings.Contains(ev.Key, "#") && false {
+				return nil
+			}
+			return faultAlts(ev, true)
+		}, c03Check,
+		fmt.Sprintf("all plans with <= %d deviations over: data request refused / answer lost / receiver error on part k / connection cut at part k / a byte of part k flipped in transit; recovery and poll requests refused / answer lost; partials request refused; receiver restart and sender crash at any data or poll request; followed by 6 h of failure-free virtual time (scan delay 30 s, poll interval 5 s, 3 poll attempts); goal: every file in the final directory, released at the source, nothing of an undelivered version left in staging, one-shot sender exited", d))
+}
+
+// ---------------------------------------------------------------- C16: stops
+
+func c16Check(r *rig) (string, string, string) {
+	tr := func() string { return r.traceString() }
+	if r.stopped == "" {
+		// no stop requested by the plan: the one-shot case (graceful stop right after start)
+		if r.conf.OneShot {
+			if !r.finished {
+				return "C16: the one-shot run did not exit\n" + tr(), "", ""
+			}
+			if v := r.c16Drained(); v != "" {
+				return "C16: the one-shot run exited before its work was done: " + v + "\n" + tr(), "", ""
+			}
+		}
+		return "", "", "no stop"
+	}
+	if !r.finished {
+		return fmt.Sprintf("C16: %s stop requested at %.3fs; the sender has not exited %.0f s (virtual) later\n%s\nsender goroutines:\n%s", r.stopped, r.stopAt.Seconds(), (r.now() - r.stopAt).Seconds(), tr(), r.stuck()), "", ""
+	}
+	took := r.doneAt - r.stopAt
+	if r.stopped == "now" && took > 60*time.Second {
+		return fmt.Sprintf("C16: immediate stop requested at %.3fs, the sender exited only %.0f s later\n%s", r.stopAt.Seconds(), took.Seconds(), tr()), "", ""
+	}
+	persisted := r.cacheEntries()
+	for _, w := range r.wire {
+		if w.Kind != "validate" || w.Err != "" || w.Gen != r.gen {
+			continue
+		}
+		for name, code := range w.Answers {
+			if code != 2 && code != 3 {
+				continue
+			}
+			if c, ok := persisted[name]; ok && !c.Done {
+				return fmt.Sprintf("C16: %s was confirmed (poll answer %d) before the sender exited, but the persisted queue cache does not record it as done\n%s", name, code, tr()), "", ""
+			}
+		}
+	}
+	if r.stopped == "graceful" {
+		if v := r.c16Drained(); v != "" {
+			return "C16: the sender exited after a graceful stop before its work was done: " + v + "\n" + tr(), "", ""
+		}
+	}
+	return "", "", fmt.Sprintf("%s stop, exit after %.0fs", r.stopped, took.Seconds())
+}
+
+func TestC16Env(t *testing.T) {
+	d := 2
+	scs := []envScenario{
+		{"2 files, 1 thread, daemon", asDaemon(confOneThread()), nil},
+		{"3 files, 2 threads, daemon", asDaemon(confTwoThreads()), nil},
+		{"3 files, 2 threads, one-shot", confTwoThreads(), nil},
+		{"8 files, 1 thread, daemon (pipeline fills up)", asDaemon(confManyFiles()), nil},
+	}
+	for i := range scs {
+		scs[i].conf.Horizon = 20 * time.Minute
+	}
+	runEnvProperty(t, "C16", "stop request at every sender action (E-ENV)", scs, d,
+		func(ev vh.EnvEvent, plan []vh.Deviation) []string {
+			for _, dv := range plan {
+				if strings.HasPrefix(dv.Do, "stop-") {
+					return nil // one stop per run
+				}
+			}
+			out := pick(ev.Menu, "stop-g", "stop-n")
+			if oneShotNow {
+				out = nil // the one stop a Broker takes was issued right after start
+			}
+			if len(plan) == 0 {
+				switch kindOf(ev.Key) {
+				case "data":
+					out = append(out, pick(ev.Menu, "refuse", "gkfail:", "corrupt:", "down:60")...)
+				case "validate":
+					out = append(out, pick(ev.Menu, "refuse")...)
+				}
+			}
+			return out
+		}, c16Check,
+		"a graceful or an immediate stop at every externally visible action of the sender (partials request, scan, cache write, data / recovery / poll request, sent-log write, done-marking, delete), alone and after one request failure (request refused, receiver error on a part, a corrupted part -> validation failure, receiver unreachable for 60 s so that the pipeline's channels fill up); oracle: the sender exits (immediate: within 60 s, graceful: within the 20 min horizon, virtual time), a graceful stop leaves everything delivered and released, nothing confirmed is missing from the persisted queue cache; the one-shot run (stop right after start) completes")
+}
+
+// ---------------------------------------------------------------- C07: sender crash
+
+func c07Check(r *rig) (string, string, string) {
+	tr := func() string { return r.traceString() }
+	if v := r.c01Final(); v != "" {
+		return v + "\n" + tr(), "", ""
+	}
+	if g := r.c03Goal(); g != "" {
+		return "C07: after the sender restart(s) the end state differs from that of an uninterrupted run: " + g + "\n" + tr(), "", ""
+	}
+	// per incarnation: nothing the receiver listed as held, and nothing already delivered, is transmitted
+	for g := 1; g <= r.gen; g++ {
+		listed := map[string][][2]int64{}
+		for _, w := range r.wire {
+			if w.Kind == "partials" && w.Gen == g && w.Err == "" {
+				listed = w.Listed
+			}
+		}
+		failed := map[string]bool{}
+		for _, w := range r.wire {
+			if w.Kind == "validate" && w.Gen == g {
+				for n, c := range w.Answers {
+					if c == 1 {
+						failed[n] = true
+					}
+				}
+			}
+			if w.Kind != "data" || w.Gen != g {
+				continue
+			}
+			for _, p := range w.Parts {
+				if failed[p.Name] {
+					continue
+				}
+				for _, rg := range listed[p.Name+" "+p.Hash] {
+					if p.Beg < rg[1] && rg[0] < p.End {
+						return fmt.Sprintf("C07: after the restart the receiver listed [%d,%d) of %s as held, yet the sender transmitted %s\n%s", rg[0], rg[1], p.Name, p, tr()), "", ""
+					}
+				}
+				if g-1 < len(r.finalAtCrash) && r.finalAtCrash[g-1][p.Name] == p.Hash {
+					return fmt.Sprintf("C07: %s was already delivered when the sender crashed, yet the restarted sender transmitted %s\n%s", p.Name, p, tr()), "", ""
+				}
+			}
+		}
+	}
+	return "", "", fmt.Sprintf("restarts=%d", r.gen)
+}
+
+func TestC07Env(t *testing.T) {
+	d := 2
+	scs := []envScenario{
+		{"3 files, 2 threads, one-shot", confTwoThreads(), armC02},
+		{"2 files, 1 thread, daemon", asDaemon(confOneThread()), armC02},
+	}
+	runEnvProperty(t, "C07", "sender crash at every sender action (E-ENV)", scs, d,
+		func(ev vh.EnvEvent, plan []vh.Deviation) []string {
+			out := pick(ev.Menu, "crash")
+			if len(plan) == 0 && kindOf(ev.Key) == "data" {
+				out = append(out, pick(ev.Menu, "gkfail:", "cut:", "lost")...)
+			}
+			return out
+		}, c07Check,
+		"the sender dies right before each of its externally visible actions (partials request, scan, queue-cache write, data / recovery / poll request, sent-log write, done-marking, delete): every single crash point, every pair of crash points (second crash during or after recovery), and every crash after one request failure that leaves the receiver with parts from a cut or partly refused payload; the restarted sender runs the real recover(); oracle: end state of the uninterrupted run, no byte range the receiver listed as held and no part of an already delivered file is transmitted, nothing released unconfirmed (C02's oracle armed)")
+}
+
+func armC02(r *rig) {
+	r.onRemove = c02Release("remove")
+	r.onDone = c02Release("mark done")
+}
+
+// ---------------------------------------------------------------- C02: sender half
+
+func c02Check(r *rig) (string, string, string) {
+	if r.viol != "" {
+		return r.viol, r.class, ""
+	}
+	return "", "", fmt.Sprintf("finished=%v", r.finished)
+}
+
+func confKeep() rigConf {
+	c := confOneThread()
+	c.Delete = false
+	return c
+}
+
+func TestC02Env(t *testing.T) {
+	d := 2
+	withFiles := func(c rigConf, ops ...string) func(r *rig) {
+		return func(r *rig) { armC02(r); r.fileOps = ops }
+	}
+	scs := []envScenario{
+		{"2 files, 1 thread, delete, one-shot", confOneThread(), withFiles(confOneThread(), "rewrite", "append")},
+		{"2 files, 1 thread, keep, daemon", asDaemon(confKeep()), withFiles(confKeep(), "rewrite")},
+		{"3 files, 2 threads, delete, daemon", asDaemon(confTwoThreads()), withFiles(confTwoThreads())},
+		{"2 files, delete, receiver holds an older version known only from its log", confOneThread(), func(r *rig) {
+			armC02(r)
+			r.fileOps = []string{"rewrite"}
+			r.preload = []preloaded{{Name: "g/a", Data: "older version of a", AgeH: 30}}
+		}},
+	}
+	runEnvProperty(t, "C02", "release of source files (E-ENV)", scs, d,
+		func(ev vh.EnvEvent, plan []vh.Deviation) []string {
+			var out []string
+			switch kindOf(ev.Key) {
+			case "validate":
+				out = pick(ev.Menu, "refuse", "lost", "crash", "recv-restart")
+			case "data":
+				out = pick(ev.Menu, "corrupt:", "lost", "crash", "recv-restart")
+			case "done", "remove", "persist", "sent":
+				out = pick(ev.Menu, "crash")
+			}
+			return append(out, pick(ev.Menu, "file:")...)
+		}, c02Check,
+		"at every Store.Remove and Cache.Done of the sender: the receiver durably holds a validated copy with the hash of the bytes being released, and a positive poll answer asked after the last acknowledgement precedes the release; plans with <= 2 deviations over: poll request refused / answer lost, a corrupted part (validation failure), lost data answer, sender crash at data / poll / done / delete / cache-write / sent-log actions, receiver restart, the source file rewritten (same size) or appended to at any sender action; delete on and off; a receiver that delivered an older version of the same name in an earlier run")
+}
+
+// c16Drained: everything the scans found was transmitted completely and polled to a verdict;
+// what was confirmed is delivered and released. (A file whose verdict is "failed" is not sent
+// again by a sender that is stopping - client.finish says so - and stays not-done in the
+// cache for the next start.)
+func (r *rig) c16Drained() string {
+	final := r.finalFiles()
+	src := r.sourceFiles()
+	cache := r.cacheEntriesLive()
+	for name, h := range r.expect {
+		verdict, nones := -1, 0
+		for _, w := range r.wire {
+			if w.Kind == "validate" && w.Err == "" {
+				if c, ok := w.Answers[name]; ok {
+					verdict = c
+					if c == 0 {
+						nones++
+					}
+				}
+			}
+		}
+		switch verdict {
+		case -1:
+			return fmt.Sprintf("%s was never polled to a verdict", name)
+		case 0:
+			if nones < r.conf.PollAttempts {
+				return fmt.Sprintf("%s was polled %d time(s) without a verdict (poll-attempts is %d)", name, nones, r.conf.PollAttempts)
+			}
+		case 2, 3:
+			if final[name] != h && verdict == 2 {
+				return fmt.Sprintf("%s was confirmed but is not in the final directory", name)
+			}
+			if r.conf.Delete {
+				if _, there := src[name]; there {
+					return fmt.Sprintf("%s was confirmed but is still in the outgoing directory (deletion is configured)", name)
+				}
+			} else if done, ok := cache[name]; !ok || !done {
+				return fmt.Sprintf("%s was confirmed but is not marked done in the queue cache", name)
+			}
 		}
 	}
 	return ""
